@@ -1,4 +1,4 @@
-import Asn1Proofs.Lemmas.CostPerTypes
+import Asn1Proofs.Lemmas.CostPerComp
 /-
   C08 for the ALIGNED PER model: fuel sufficiency.  The fuel-indexed loops of the decoder are
   `decChunks` and `decChunksBits` (`read_length_determinant_chunks`); every chunk costs at least 8
